@@ -153,7 +153,13 @@ def main():
             from .fullrun import frozen_time
 
             with contextlib.redirect_stdout(io.StringIO()), frozen_time():
-                _FINAL["sim"] = cm.compute(cfg, verbose=False, output_file=out, write_stages=spec.get("write_stages", True))
+                kw_ = {}
+                if spec["config"].get("plots"):
+                    # every registered diagnostic plot requested (what `run -w --plotall` does)
+                    from nuspacesim.utils.plot_function_registry import registry
+
+                    kw_["to_plot"] = sorted(registry)
+                _FINAL["sim"] = cm.compute(cfg, verbose=False, output_file=out, write_stages=spec.get("write_stages", True), **kw_)
     except BaseException as e:  # noqa: BLE001
         res["raised"] = f"{type(e).__name__}: {e}"[:300]
     finally:
